@@ -125,4 +125,23 @@ for it in range(N):
         if parse(t1).rebuild() != t1: viol.append(dict(case, what='re-parsing and rebuilding the rendered text is not stable', text=t1, again=parse(t1).rebuild()))
     except Exception as e: viol.append(dict(case, what='re-parsing the rendered text raises %s' % type(e).__name__, text=t1))
     if len(samples) < 3: samples.append(dict(case, text=t1))
+# thirteenth round (unconditional): values that are integers / strings by SUBCLASS (enum members, user subclasses) are integers / strings of the domain:
+# they must render exactly like the plain value they equal, in every construction context
+import enum
+class _Level(enum.IntEnum): LOW = 1; HIGH = 3
+class _Mode(str, enum.Enum): FAST = 'fa"st\\'; SLOW = 'slow'
+class _Tagged(str): pass
+class _Count(int): pass
+for sub, plain in [(_Level.HIGH, 3), (_Mode.FAST, 'fa"st\\'), (_Tagged('a\tb'), 'a\tb'), (_Count(7), 7), (_Tagged(''), '')]:
+    for name, mk in [('from_dict', lambda x: AttributeSet.from_dict({'k': x}).rebuild()), ('values_dict', lambda x: AttributeSet(values={'k': x}).rebuild()),
+                     ('list_element', lambda x: NixList(value=[x, x]).rebuild()), ('binding_ctor', lambda x: AttributeSet(values=[Binding(name='k', value=x)]).rebuild()),
+                     ('item_assign', lambda x: (lambda s_: (s_.__setitem__('k', x), s_.rebuild())[1])(parse('{ a = 1; }'))),
+                     ('ctor_then_assign', lambda x: (lambda s_: (s_.__setitem__('a', x), s_.rebuild())[1])(AttributeSet.from_dict({'a': 1, 'b': 2})))]:
+        dist['subclass/' + name] = dist.get('subclass/' + name, 0) + 1
+        case = {'context': name, 'value': '%s (%s, a subclass of %s)' % (repr(plain), type(sub).__name__, type(plain).__name__)}
+        try: want_text = mk(plain)
+        except Exception: continue
+        try: got_text = mk(sub)
+        except Exception as e: viol.append(dict(case, what='construction/render of a value of the domain raises %s: %s' % (type(e).__name__, e))); continue
+        if got_text != want_text: viol.append(dict(case, what='a subclass instance renders differently from the value it equals', text=got_text, expected=want_text))
 print(json.dumps({'evaluations': sum(dist.values()), 'distinct': sum(dist.values()), 'distribution': dist, 'violations': viol[:6], 'n_violations': len(viol), 'known_hits': known, 'samples': samples}))
